@@ -125,6 +125,32 @@ def check_cfg(ctx, fx, cfg):
             ctx.viol("R05.9", "holder:%s@%s" % (o["def"], cfg), "a type outside the closed list holds a strong handle (its values keep actors alive): %s via %s" % (a["ty"][:80], a["paths"][0][:120]), fn=o["def"], site=fx.adts[o["def"]]["loc"] if o["def"] in fx.adts else None)
         elif ka:
             ctx.ok("R05.9", "holder:%s@%s" % (o["def"], cfg), fx.adts[o["def"]]["loc"] if o["def"] in fx.adts else None, HOLDERS[o["def"]])
+    # R05.10 closed list of closures / futures that own a strong handle (each is a handle's internals, an operation that was
+    # given the handle by value, a transient upgrade during one send, or construction); a new one is reported for review
+    CLOSURE_HOLDERS = (
+        "actor::builder::ActorBuilderWithChannel::<A, P, R>::register::", "actor::service::<impl addr::Addr<A>>::register::", "actor::service::<impl addr::Addr<A>>::replace::",
+        "actor::service::SpawnableService::from_registry_and_spawn::", "actor::service::Service::from_registry_and_spawn::",
+        "addr::caller::Caller::<M>::call::", "addr::caller::Caller::<M>::new::", "addr::sender::Sender::<M>::new::",
+        "addr::weak_addr::WeakAddr::<A>::try_halt::", "addr::weak_caller::WeakCaller::<M>::try_call::", "addr::weak_sender::WeakSender::<M>::try_send::",
+        "addr::Addr::<A>::halt::", "addr::Addr::<A>::send::", "addr::OwningAddr::<A>::consume::", "addr::OwningAddr::<A>::send::", "addr::OwningAddr::<A>::call::",
+        "channel::Channel::<A>::bounded::", "channel::Channel::<A>::unbounded::",
+        "environment::Environment::<A, R>::create_loop::", "environment::Environment::<A, R>::create_loop_on_stream::",
+        "broker::Broker::<T>::publish::", "broker::Broker::<T>::try_publish::", "broker::Broker::<T>::subscribe::",
+        "<broker::Broker<T> as handler::Handler<broker::Publish<T>>>::handle::", "context::Context::<A>::publish::", "context::Context::<A>::subscribe::",
+        "actor::service::Service::setup::", "actor::service::Service::from_registry::",
+    )
+    for o in fx.owns:
+        if o["kind"] not in ("closure", "coroutine"):
+            continue
+        ka = own.keepalive_atoms(o["atoms"])
+        if not ka:
+            continue
+        d = o["def"]
+        if any((d + "::").startswith(pfx) or d.startswith(pfx) for pfx in CLOSURE_HOLDERS):
+            continue
+        c_, p_, a = ka[0]
+        ctx.viol("R05.10", "closure-holder:%s@%s" % (d, cfg), "a closure / future outside the closed list owns a strong handle (while it exists the actor cannot see its last handle dropped): %s via %s" % (a["ty"][:70], a["paths"][0][:100]), fn=d, site=(fx.fn(d) or {}).get("loc"))
+    ctx.ok("R05.10", "closure-holders@" + cfg, "crate", {"closed_list": len(CLOSURE_HOLDERS)})
     # R05.7 closed mailbox -> graceful exit
     res57 = run_loops(ctx, fx, "R05.7", {"L9", "L11", "L4", "L13"})
     for lf, kind, lb, ln in res57:
